@@ -47,9 +47,12 @@ claim('C06', 'Lean 4 proofs (scope lookup soundness/completeness, definition acc
 
 claim('C02', 'Lean 4 proofs (placement at the zone cursor, reserved = emitted size, label = cursor, least-multiple alignment) + differential correspondence',
       'Kernel-checked theorems: a line is placed at its zone\'s cursor unless it is an .org/.align, the cursor then sits right behind '
-      'it and no other zone moves (contiguity); the bytes finally emitted number exactly the reserved size; an address label is bound '
+      'it and no other zone moves (contiguity); the bytes finally emitted number exactly the reserved size - also for every bit-packed '
+      'ISA statement and macro invocation (sizes come from variant selection, which evaluates nothing; the second pass with the final '
+      'labels emits exactly that many bytes); an address label is bound '
       'to the cursor at its definition; .align yields the least multiple of the page size not below the address; .zerountil reaches '
-      'exactly its target. Each run compares the image (label values observed through data/operands) of the real CLI with the model.',
+      'exactly its target. Each run compares the image (label values observed through data/operands) of the real CLI with the model, '
+      'incl. whole programs of real ISA statements (relative jumps to forward / backward labels, macros) assembled by the layout model itself.',
       NOTE)
 claim('C05', 'Lean 4 proofs (zone cursor invariant, confinement, zone-relative vs absolute origin, zone declaration rejection, concatenation of stretches) + differential correspondence',
       'Kernel-checked theorems: every zone keeps start <= cursor <= end+1 and lies inside GLOBAL; every byte line lies inside its '
@@ -105,15 +108,17 @@ claim('C13', 'Lean 4 decision-logic proofs (first matching variant, specific bef
       'Kernel-checked theorems: the selected variant is the first in definition order whose operand pattern accepts and all earlier '
       'ones decline; rejection iff every variant declines; specific operand combinations precede operand sets; a disallowed '
       'combination is skipped; inside a set the alternatives are tried in a stable sort by type rank (bracketed / indexed < keys < '
-      'registers < numeric) and the first acceptance wins; numeric-like types never accept an expression containing a register name. '
+      'registers < numeric) and the first acceptance wins; numeric-like types never accept an expression containing a register name '
+      '(in any letter case, also under unary minus / BYTEn). '
       'Each run compares the bytes (unique opcodes / operand codes identify the choice) and exit status of the real CLI with the '
-      'model on deliberately ambiguous generated ISAs, incl. multi-statement programs.',
+      'model on deliberately ambiguous generated ISAs, incl. multi-statement programs (special-then-general variants in every statement '
+      'order, variants sharing one operands mapping, mirrored disallowed pairs, decorated indirect registers).',
       NOTE + ' Operand forms are syntactic classes of operand text; quirks of the regexes outside the generated forms (e.g. enumeration keys matched as a prefix) are listed in DESIGN.md.')
 
 claim('C10', 'Lean 4 refinement proof (step loop with running address = expanded statements at prefix-sum addresses) + metamorphic and differential correspondence',
       'Kernel-checked theorems: the macro step loop emits exactly the concatenation of the bytes of the instantiated templates '
       'assembled in order as ordinary statements, statement k at addr + sum of earlier sizes (errors included); size = sum of step '
-      'sizes; the macro variant is the first whose operand pattern accepts; unfillable placeholders (index out of range, @ARG '
+      'sizes = the size reserved in the first pass from selection alone, whatever the operands evaluate to; the macro variant is the first whose operand pattern accepts; unfillable placeholders (index out of range, @ARG '
       'without argument, @REG on a non-register operand) are rejected. Each run compares on the real CLI the program with '
       'invocations against the hand-expanded program (image incl. following label addresses) and the invocation bytes against the model.',
       NOTE + ' @ARG(n) inside a larger expression is generated for atomic argument texts only (substitution is textual); @OP(n) not with empty operands.')
@@ -131,7 +136,7 @@ claim('C19', 'Lean 4 proofs (validate accepts iff well-formed; version compariso
 claim('C18', 'Lean 4 proofs about the model scanner (whitespace / comment / blank-line / case / label-placement / compound-line invariance) + metamorphic correspondence on the real CLI',
       'PARTIAL. Kernel-checked theorems about the hand-written model scanner: tokens are recovered whatever the amount and kind of '
       'whitespace between them; comments, blank lines and indentation contribute nothing; mnemonics and registers are case-folded, other '
-      'identifiers kept; a label splits off as its own statement; a line is split where the next mnemonic starts; the program is the '
+      'identifiers kept; a quoted literal is one token whatever it contains (; , : blanks, mnemonics); a label splits off as its own statement; a line is split where the next mnemonic starts; the program is the '
       'concatenation of its lines. The real code uses Python regular expressions for this: they are modelled, not verified. The tie is '
       'checked on every run: each generated program is rendered in one canonical and three random layouts (all listed rewrites at '
       'random positions) and all must give the same image on the real CLI (the property itself), and the text re-rendered from the '
